@@ -2,6 +2,7 @@ package props
 
 import (
 	"fmt"
+	"github.com/go-kid/ioc/container/processors"
 	"reflect"
 	"sort"
 	"strings"
@@ -38,6 +39,9 @@ type resolveCase struct {
 	Pop    []scen.QProv `json:"providers"`
 	Fields []qField     `json:"fields"`
 	Family string       `json:"family"`
+	// Resolver: the exported by-type resolving processor is registered next to the built-in one
+	// (every by-type candidate is then listed twice); only single-valued points in this family
+	Resolver bool `json:"second_resolver,omitempty"`
 	// replay: the one order that failed
 	Perm    []int `json:"perm,omitempty"`
 	Choices []int `json:"choices,omitempty"`
@@ -120,6 +124,22 @@ func resolveGen(c *core.Ctx) func(yield func(resolveCase) bool) {
 						if !yield(resolveCase{Pop: pop, Fields: fs, Family: "c"}) {
 							return
 						}
+					}
+				}
+			}
+		}
+		// (d) single-valued points while a second by-type resolver is registered
+		for _, pop := range pops3 {
+			for _, q1 := range qualArgs {
+				if !yield(resolveCase{Pop: pop, Fields: []qField{{Kind: "single", Qual: q1}}, Family: "d", Resolver: true}) {
+					return
+				}
+				if len(pop) > 2 {
+					continue
+				}
+				for _, q2 := range qualArgs {
+					if !yield(resolveCase{Pop: pop, Fields: []qField{{Kind: "single", Qual: q1}, {Kind: "single", Qual: q2, Opt: true}}, Family: "d", Resolver: true}) {
+						return
 					}
 				}
 			}
@@ -236,6 +256,9 @@ func resolveOnce(c *core.Ctx, cs resolveCase, perm []int, ch *envx.Chooser) (res
 		reg = append(reg, comps[i]) // registration order follows the same permutation
 	}
 	reg = append(reg, holder.Interface())
+	if cs.Resolver {
+		reg = append(reg, processors.NewDependencyTypeAwarePostProcessors())
+	}
 	o := scen.Start(scen.StartSpec{Ch: ch, Comps: reg, User: user, Base: base})
 	var ex resolveExec
 	if o.Panic != "" || o.Abort != "" || len(o.ChildPanics) > 0 {
@@ -363,7 +386,7 @@ func resolveRun(c *core.Ctx, prop string) {
 			if prop == "C08" && len(ex.viols) > 0 {
 				cc := cs
 				cc.Perm = perm
-				c.Report("C08/ranking/"+core.Hash(cs.Pop, cs.Fields), "ranking", fmt.Sprintf("order %v: %s", perm, ex.viols[0]), cc)
+				c.Report("C08/ranking/"+core.Hash(cs.Pop, cs.Fields, cs.Resolver), "ranking", fmt.Sprintf("order %v: %s", perm, ex.viols[0]), cc)
 			}
 		}
 		if prop == "C10" && len(sigs) > 1 {
@@ -375,7 +398,7 @@ func resolveRun(c *core.Ctx, prop string) {
 			}
 			cc := cs
 			cc.Perm = sigs[other]
-			c.Report("C10/order/"+core.Hash(cs.Pop, cs.Fields), "order-dependent",
+			c.Report("C10/order/"+core.Hash(cs.Pop, cs.Fields, cs.Resolver), "order-dependent",
 				fmt.Sprintf("providers %v, fields %v: outcome %q under the identity order but %q under iteration/registration order %v (tied points are masked)", cs.Pop, cs.Fields, firstSig, other, sigs[other]), cc)
 		}
 		if c.S.Programs%3000 == 1 {
